@@ -15,7 +15,8 @@ func init() {
 	register(&CheckDef{Name: "env", Props: []string{"C12", "C15"}, Run: runEnv, Replay: replayEnv})
 }
 
-var envSets = []map[string]string{{"a": "true"}, {"o": "ev"}, {"a": "true", "o": "ev"}}
+// the last one: a flag whose (valid) environment value is a false spelling is satisfied by it all the same
+var envSets = []map[string]string{{"a": "true"}, {"o": "ev"}, {"a": "true", "o": "ev"}, {"a": "0"}}
 
 func runEnv(c *Ctx) {
 	d := ref.Std()
@@ -67,7 +68,7 @@ func runEnv(c *Ctx) {
 			}
 		}
 		if c.Shard == 0 {
-			c.Note(fmt.Sprintf("tier %d", ti), fmt.Sprintf("%d specs (size<=%d over %d leaves) x %d argvs (length<=%d over %q) x 3 non-empty subsets of {a (flag, $VQ_A=true), o (valued, $VQ_O=ev)}", ns, t.size, len(t.leaves), len(argvs), t.alen, t.toks))
+			c.Note(fmt.Sprintf("tier %d", ti), fmt.Sprintf("%d specs (size<=%d over %d leaves) x %d argvs (length<=%d over %q) x 3 non-empty subsets of {a (flag, $VQ_A=true), o (valued, $VQ_O=ev)} and {a: $VQ_A=0}", ns, t.size, len(t.leaves), len(argvs), t.alen, t.toks))
 		}
 	}
 }
@@ -98,6 +99,16 @@ func envCase(c *Ctx, d *ref.Decl, spec string, node *ref.Node, argv []string, r 
 		}
 		if base.Accepted || obs.Accepted {
 			c.Count("nontrivial", 1)
+		}
+		// the same with the built-in value types (single-valued bool, multi-valued strings): whether an option is
+		// satisfied by its environment value does not depend on the type holding it, nor on what the value says
+		if c.On("C12") && (len(env) == 2 || env["a"] == "0") {
+			ob := runLang(d, spec, argv, langOpts{env: env, builtin: true})
+			c.Count("builtin_type_runs", 1)
+			if ob.Accepted != obs.Accepted || ob.Panic != "" {
+				c.Violation("C12", key+" builtin-types", cs(), "same acceptance as with custom value types: "+obs.Summary(), ob.Summary())
+				continue
+			}
 		}
 		// C15 (third stage): an option whose value came from the environment only is not "set by user"
 		if c.On("C15") && obs.Accepted && !hasEnd && !r.Malformed {
